@@ -208,7 +208,8 @@ def run(ctx):
         outs = [x["ret"] for c, x in zip(j["calls"], r["results"]) if c["call"] in ("get_output", "simulate", "resim")]
         if kind == "otherseed":
             h = outs[-1]["hash"]
-            if e["option"] == "euler" and h != e["ref"]["hash"]:
+            # (with init_state_processing Poisson / redist the initial state is drawn with the seed, for every engine)
+            if e["option"] == "euler" and e["info"].get("mode") in ("none", "auto") and h != e["ref"]["hash"]:
                 ctx.violation("euler-seed", "the deterministic engine's trajectory changed with the seed", case, impl=h, expected=e["ref"]["hash"])
             if e["option"] != "euler":
                 ctx.count("stochastic_seed_changed" if h != e["ref"]["hash"] else "stochastic_seed_same")
@@ -219,6 +220,9 @@ def run(ctx):
                 ctx.violation("stored-script:noseed", "re-running trajectory.script (seed drawn at construction) does not reproduce the trajectory",
                               case, impl={"seed": outs[-2]["seed"], "first": outs[-2]["hash"], "rerun": outs[-1]["hash"]})
             continue
+        for x in r["results"]:
+            for key, what, impl, exp in lc.init_failures(x):
+                ctx.violation(key, what, case, impl=impl, expected=exp)
         changed = [(c["call"], x["script_changed"]) for c, x in zip(j["calls"], r["results"]) if x.get("script_changed")]
         if changed:
             ctx.violation("script-modified", "%s() changed the caller's script (%s)" % (changed[0][0], changed[0][1][0]["field"]), case, impl=changed[0][1][:3], expected=[])
@@ -302,6 +306,10 @@ def replay(ctx, rec):
         return False, {"status": r["status"], "at": r["at"]}
     outs = [x["ret"] for c, x in zip(job["calls"], r["results"]) if c["call"] in ("get_output", "simulate", "resim") and "ret" in x]
     detail = {"kind": job.get("kind"), "hashes": [o["hash"] for o in outs], "reference_hash": case.get("reference_hash")}
+    inits = [f for x in r["results"] for f in lc.init_failures(x)]
+    if inits:
+        detail["marshalling"] = [{"key": f[0], "what": f[1]} for f in inits[:3]]
+        return False, detail
     changed = [x["script_changed"] for x in r["results"] if x.get("script_changed")]
     if changed:
         detail["script_changed"] = changed[0]
